@@ -1706,3 +1706,76 @@ func VerifPreload(n int) {
 	verifapi.Classify("C18/output-differs-from-concatenation-restricted-to-target/" + shape)
 	verifapi.Assert(outSplit == verifDropShift(outWhole, 1, preLines), "C18-prefix")
 }
+
+// ---- C19: config file names and splitting ----
+
+const verifCfgPa = `{"frame": "Builtin", "class": "Pa", "instance_methods": [
+ {"name": "m", "arguments": [{"type": ["Int"]}], "return_type": {"type": ["Int"]}},
+ {"name": "m", "arguments": [{"type": ["String"]}], "return_type": {"type": ["String"]}},
+ {"name": "only_pa", "arguments": [{"type": ["Int"]}, {"type": ["DefaultString"]}], "return_type": {"type": ["Bool"]}}],
+ "class_methods": [{"name": "new", "arguments": [], "return_type": {"type": ["Pa"]}}]}`
+const verifCfgCh = `{"frame": "Builtin", "class": "Ch", "extends": ["Pa"], "instance_methods": [
+ {"name": "m", "arguments": [{"type": ["Symbol"]}], "return_type": {"type": ["Symbol"]}},
+ {"name": "k", "arguments": [], "return_type": {"type": ["Float"]}}],
+ "class_methods": [{"name": "new", "arguments": [], "return_type": {"type": ["Ch"]}}]}`
+const verifCfgCh1 = `{"frame": "Builtin", "class": "Ch", "extends": ["Pa"], "instance_methods": [
+ {"name": "k", "arguments": [], "return_type": {"type": ["Float"]}}],
+ "class_methods": [{"name": "new", "arguments": [], "return_type": {"type": ["Ch"]}}]}`
+const verifCfgCh2 = `{"frame": "Builtin", "class": "Ch", "instance_methods": [
+ {"name": "m", "arguments": [{"type": ["Symbol"]}], "return_type": {"type": ["Symbol"]}}], "class_methods": []}`
+const verifCfgGc = `{"frame": "Builtin", "class": "Gc", "extends": ["Ch"], "instance_methods": [],
+ "class_methods": [{"name": "new", "arguments": [], "return_type": {"type": ["Gc"]}}]}`
+
+const verifCfgProbe = "a = Pa.new\ndbtp a.m(1)\ndbtp a.m(\"s\")\nc = Ch.new\ndbtp c.m(:y)\ndbtp c.m(1)\ndbtp c.k\ng = Gc.new\ndbtp g.m(1)\ndbtp g.k\ndbtp a.m(Sym.a)\ndbtp c.m(Sym.a)\na.only_pa\nc.k(1)\na.m\n"
+
+var verifPerm3Names = [][]string{{"a", "b", "c"}, {"a", "c", "b"}, {"b", "a", "c"}, {"b", "c", "a"}, {"c", "a", "b"}, {"c", "b", "a"}}
+
+// VerifConfigOrder: the same three class declarations (a parent with an overloaded method, a
+// child that extends it and re-declares the method, a grandchild) are loaded by the real
+// loader (a) from files named so that the parent is read first, (b) from files renamed into
+// another of the 6 load orders, or with the child's declarations split over two files placed
+// around the parent; the probe program's output must be identical.
+func VerifConfigOrder(n int) {
+	variant := verifapi.Concrete(verifapi.Int("variant", 1, 8))
+	s := verifInstallSym("a")
+	verifapi.WitnessList("Sym.a", verifKN(s.ka))
+	load := func(files [][2]string) string {
+		for _, f := range files {
+			verifapi.SetFile(".ti-config/"+f[0]+".json", f[1])
+		}
+		verifapi.VfsOnly(".ti-config")
+		builtin.VerifLoadConfigAgain()
+		return verifRun(verifCfgProbe)
+	}
+	ref := [][2]string{{"a_pa", verifCfgPa}, {"b_ch", verifCfgCh}, {"c_gc", verifCfgGc}}
+	var other [][2]string
+	name := ""
+	switch {
+	case variant <= 5:
+		p := verifPerm3Names[variant]
+		other = [][2]string{{p[0] + "_pa", verifCfgPa}, {p[1] + "_ch", verifCfgCh}, {p[2] + "_gc", verifCfgGc}}
+		name = "renamed-files-load-order-" + p[0] + p[1] + p[2] + "-for-parent-child-grandchild"
+	case variant == 6:
+		other = [][2]string{{"a_pa", verifCfgPa}, {"b_ch1", verifCfgCh1}, {"b_ch2", verifCfgCh2}, {"c_gc", verifCfgGc}}
+		name = "child-split-in-two-files-after-parent"
+	case variant == 7:
+		other = [][2]string{{"a_ch1", verifCfgCh1}, {"b_pa", verifCfgPa}, {"c_ch2", verifCfgCh2}, {"d_gc", verifCfgGc}}
+		name = "child-split-around-parent-extends-part-first"
+	default:
+		other = [][2]string{{"a_ch2", verifCfgCh2}, {"b_pa", verifCfgPa}, {"c_ch1", verifCfgCh1}, {"d_gc", verifCfgGc}}
+		name = "child-split-around-parent-method-part-first"
+	}
+	verifapi.Witness("src", verifCfgProbe)
+	filesW := ""
+	for _, f := range other {
+		filesW += f[0] + ".json\x1e" + f[1] + "\x1d"
+	}
+	verifapi.Witness("C19.files", filesW)
+	mark := verifapi.Snapshot()
+	outRef := load(ref)
+	verifapi.Restore(mark)
+	outOther := load(other)
+	verifapi.Reach("ran")
+	verifapi.Classify("C19/output-depends-on-config-file-layout/" + name)
+	verifapi.Assert(outRef == outOther, "C19-same-output")
+}
